@@ -117,16 +117,16 @@ def run_family(prop, invs, props, tier, seed, focus=None, signature_prefix="fami
     cfgmachine.write_cfg(cfg, "GFirst", depth, invs, props)
     mc_env = {}
     if not quick:
-        # two levels of history on every 4th schema of the two-key family (and the diagonal);
+        # two levels of history on every 6th schema of the two-key family (and the diagonal);
         # the whole three-key family below at one level
         with open(cfg) as fp:
             text = fp.read().replace("INIT Init", "INIT InitSample")
         with open(cfg, "w") as fp:
             fp.write(text)
-        mc_env = {"FAM_STRIDE": 4, "FAM_PHASE": seed % 4, "FAM_PARTS": 1, "FAM_PART": 0}
+        mc_env = {"FAM_STRIDE": 6, "FAM_PHASE": seed % 6, "FAM_PARTS": 1, "FAM_PART": 0}
     res = tlc.run("MC_Config.tla", cfg, workers=16, keep=(), env=mc_env)
     states, transitions = res.distinct, res.generated
-    instance = "MC_Config family MCFamily2 (%s two-key root schema over the node shapes) depth %d" % ("every" if quick else "every 4th", depth)
+    instance = "MC_Config family MCFamily2 (%s two-key root schema over the node shapes) depth %d" % ("every" if quick else "every 6th", depth)
     viol = [res] if not res.ok else []
     if not quick:
         cfg3 = os.path.join(d, "mc3.cfg")
@@ -177,7 +177,7 @@ def run_family(prop, invs, props, tier, seed, focus=None, signature_prefix="fami
     # 3. deeper simulated behaviours on random schemas
     cfgs = os.path.join(d, "sim.cfg")
     cfgmachine.write_cfg(cfgs, fam, 99, export=True, bound=False)
-    nsim, dsim = (80, 8) if quick else (800, 12)
+    nsim, dsim = (80, 8) if quick else (400, 12)
     sim = tlc.run("MC_Config.tla", cfgs, workers=1, simulate=nsim, depth=dsim, seed=seed + 3, keep=("INIT", "EDGE"))
     sedges, sinits = _normalise(sim.printed.get("EDGE", []), sim.printed.get("INIT", []), descs)
     lap("simulate")
